@@ -46,6 +46,7 @@ CATALOGUE = [
     ("int-index-forgets-overflow", "C05", "text.py", "                justify=self.justify,\n                overflow=self.overflow,\n                end=\"\",\n                tab_size=self.tab_size,", "                end=\"\",\n                tab_size=self.tab_size,"),
     ("text-without-copy-hook", "C05", "text.py", "    def __copy__(self) -> \"Text\":", "    def _no_copy_hook(self) -> \"Text\":"),
     ("join-result-inherits-separator-style", "C05", "text.py", "        new_text.style = \"\"\n\n        def iter_text()", "        def iter_text()"),
+    ("constructor-keeps-spans-beyond-the-end", "C05", "text.py", "                if span.end <= length\n                else Span(min(span.start, length), length, span.style)", "                if True\n                else Span(min(span.start, length), length, span.style)"),
     ("init-length-unstripped", "C05", "text.py", "self._length: int = len(sanitized_text)", "self._length: int = len(text)"),
     ("divide-order-by-start", "C05", "text.py", "            line_spans.sort(key=itemgetter(0))", "            line_spans.sort(key=lambda item: item[1].start)"),
     # ---- C02
